@@ -20,6 +20,10 @@ class SchemeError(Exception):
     pass
 
 
+class Unsupported(Exception):
+    """a construct this evaluator has no rule for: no verdict"""
+
+
 class Diverges(Exception):
     pass
 
@@ -286,7 +290,7 @@ class Eval:
         if isinstance(t, Lit):
             return self.quote(t)
         if isinstance(t, (Dotted, Vec)):
-            raise SchemeError("cannot evaluate %r" % (t,))
+            raise Unsupported("cannot evaluate %r" % (t,))
         if not isinstance(t, list):
             return t            # an already abstract value spliced into a call
         if not t:
@@ -313,7 +317,20 @@ class Eval:
                     e = e[1]
                 raise SchemeError("set! of an unbound variable")
             if h.name == "define":
-                raise SchemeError("internal define is outside this evaluator")
+                # an internal definition: bound in the frame of the procedure being run, when the definition is reached
+                if env is None:
+                    raise Unsupported("a definition outside a procedure body")
+                tg = t[1]
+                if isinstance(tg, Sym):
+                    name, val = tg.name, (self.ev(t[2], env) if len(t) > 2 else UNSPEC)
+                else:
+                    name = tg[0].name if isinstance(tg, list) else tg.items[0].name
+                    fm = library.formals_of(list(tg[1:]) if isinstance(tg, list) else Dotted(tg.items[1:], tg.tail))
+                    val = Closure(list(fm[0]), fm[1], list(t[2:]), env, name)
+                if isinstance(val, Closure) and val.name is None:
+                    val.name = name
+                env[0][name] = val
+                return UNSPEC
         f = self.ev(h, env)
         args = [self.ev(a, env) for a in t[1:]]          # operands left to right (C01-once decides this for the interpreter)
         return self.apply(f, args)
